@@ -43,6 +43,9 @@ const FOREIGN_REL: usize = 1 << 40;
 /// sequence is written, then all the answers are read (one context switch per sequence instead
 /// of one per line).  A batch must stay below the pipe capacity (64 KiB): sequences are ~10 KiB.
 struct LeanDriver {
+    /// the header (cfg + src lines) the driver is currently configured with: a sequence with
+    /// the same header only needs `reset`
+    header: Vec<String>,
     child: std::process::Child,
     stdin: std::process::ChildStdin,
     stdout: std::io::BufReader<std::process::ChildStdout>,
@@ -54,7 +57,7 @@ impl LeanDriver {
         let mut child = Command::new(path).stdin(Stdio::piped()).stdout(Stdio::piped()).stderr(Stdio::inherit()).spawn()?;
         let stdin = child.stdin.take().unwrap();
         let stdout = std::io::BufReader::new(child.stdout.take().unwrap());
-        Ok(LeanDriver { child, stdin, stdout })
+        Ok(LeanDriver { header: vec![], child, stdin, stdout })
     }
     fn batch(&mut self, lines: &[String]) -> std::io::Result<Vec<String>> {
         use std::io::{BufRead, Write};
@@ -1307,7 +1310,19 @@ impl<'l, T: Subject> Session<'l, T> {
         let _ = alloc::take_events();
         let _ = alloc::take_violations();
         let srcs: Vec<&'static [u8]> = hdr.srcs.iter().enumerate().map(|(i, s)| intern_src(i, s)).collect();
-        let queue: Vec<String> = if lean.is_some() { hdr.lines().into_iter().skip(1).collect() } else { vec![] };
+        let mut lean = lean;
+        let queue: Vec<String> = match lean.as_deref_mut() {
+            Some(l) => {
+                let h: Vec<String> = hdr.lines().into_iter().skip(1).collect();
+                if l.header == h {
+                    vec!["reset".to_string()]
+                } else {
+                    l.header = h.clone();
+                    h
+                }
+            }
+            None => vec![],
+        };
         let unique = hdr.backend == "unique";
         Ok(Session {
             ceil_off: if unique { 0 } else { (REAL_CEIL - hdr.ceil) as usize },
@@ -2212,7 +2227,12 @@ impl<'l, T: Subject> Session<'l, T> {
         };
         if let (Some((ptr, len)), Some(r), true) = (borrowed_src, d.and_then(|i| self.pool[i].as_ref()).map(|x| x.hb()), ok) {
             if !r.is_borrowed() {
-                bad.push(format!("{}: the result must BORROW the caller's bytes, it is {}", op.name(), if r.is_inline() { "inline (copied)" } else { "allocated (copied)" }));
+                let route = if matches!(op, Op::Borrowed { .. }) {
+                    format!(" [constructor route {} of 0=borrowed 1=Cow::Borrowed 2=from_static (byt/str; os/path: variant mod 2, 1=Path/Cow)]", op.variant() % 3)
+                } else {
+                    String::new()
+                };
+                bad.push(format!("{}: the result must BORROW the caller's bytes, it is {}{route}", op.name(), if r.is_inline() { "inline (copied)" } else { "allocated (copied)" }));
             } else if r.as_ptr() as usize != ptr || r.len() != len {
                 bad.push(format!("{}: borrowed result does not point at the source bytes (offset {} len {}, expected len {len})", op.name(), r.as_ptr() as isize - ptr as isize, r.len()));
             }
